@@ -612,7 +612,7 @@ var txMuts = []mutInfo{
 	{"Hash", "bound"}, {"Height", "bound"}, {"Index", "bound"}, {"Tx", "bound"}, {"TxResult.Code", "free"},
 	{"TxResult.Data", "free"}, {"Proof.Data", "bound"}, {"Proof.RootHash", "bound"}, {"Proof.Data+Tx+Hash", "bound"},
 	{"Proof.Proof.Index", "proof"}, {"Proof.Proof.Total", "proof"}, {"Proof.Proof.LeafHash", "proof"},
-	{"Proof.Proof.Aunts", "proof"}, {"Proof.Proof:restated", "proof"}, {"Tx:other-tx", "bound"},
+	{"Proof.Proof.Aunts", "proof"}, {"Proof.Proof:restated", "proof"}, {"Tx:other-tx", "bound"}, {"Proof:of-other-tx", "bound"},
 }
 
 func mutTx(c *chain, res *ctypes.ResultTx, mut string, k int) {
@@ -670,6 +670,37 @@ func mutTx(c *chain, res *ctypes.ResultTx, mut string, k int) {
 	case "Proof.Proof:restated": // last leaf of an n-leaf tree restated as leaf n of n+1 (same path shape)
 		res.Proof.Proof.Index++
 		res.Proof.Proof.Total++
+	case "Proof:of-other-tx": // the requested transaction (bytes, hash) under the GENUINE proof of another one
+		type loc struct {
+			h int64
+			i int
+		}
+		var same, other []loc
+		for h := int64(1); h <= int64(c.spec.n); h++ {
+			for i, tx := range c.txsAt[h] {
+				if string(tx) == string(res.Tx) {
+					continue
+				}
+				if h == res.Height {
+					same = append(same, loc{h, i})
+				} else {
+					other = append(other, loc{h, i})
+				}
+			}
+		}
+		pick := same // even k: another transaction of the same block, odd k: of another block
+		if k%2 == 1 || len(same) == 0 {
+			pick = other
+		}
+		if len(pick) == 0 {
+			pick = same
+		}
+		if len(pick) == 0 {
+			return
+		}
+		l := pick[(k/2)%len(pick)]
+		res.Height, res.Index = l.h, uint32(l.i)
+		res.Proof = c.blocks[l.h].Data.Txs.Proof(l.i)
 	case "Tx:other-tx": // the complete genuine answer for another transaction
 		for h := int64(1); h <= int64(c.spec.n); h++ {
 			for _, tx := range c.txsAt[h] {
